@@ -36,6 +36,7 @@ type Ctx struct {
 	cg       *callgraph.Graph
 
 	NFuncs int
+	curPkg string // scratch: package of the function a rule is currently looking at
 }
 
 func short(path string) string {
